@@ -10,14 +10,19 @@ RECURSIVE Gcd(_, _)
 Gcd(a, b) == IF b = 0 THEN Abs(a) ELSE Gcd(b, a % Abs(b))
 RECURSIVE NoDivisorFrom(_, _)
 NoDivisorFrom(x, d) == IF d * d > x THEN TRUE ELSE IF x % d = 0 THEN FALSE ELSE NoDivisorFrom(x, d + 1)
-IsPrime(x) == x >= 2 /\ NoDivisorFrom(x, 2)
+\* (bounded quantifiers instead of linear recursion, so that TLC's evaluation stack stays shallow: divisors up to 200 for
+\*  arguments below 200^2, up to 46340 (46340^2 < 2^31) otherwise; NoDivisorFrom / LeastFactorFrom define the same functions)
+DivBound(x) == IF x < 40000 THEN 200 ELSE 46340
+IsPrime(x) == x >= 2 /\ \A d \in 2..DivBound(x) : d * d > x \/ x % d # 0
 RECURSIVE NextPrime(_)
 NextPrime(x) == IF IsPrime(x + 1) THEN x + 1 ELSE NextPrime(x + 1)
 RECURSIVE PrevPrime(_)
 PrevPrime(x) == IF IsPrime(x - 1) THEN x - 1 ELSE PrevPrime(x - 1)       \* x >= 3
 RECURSIVE LeastFactorFrom(_, _)
 LeastFactorFrom(x, d) == IF d * d > x THEN x ELSE IF x % d = 0 THEN d ELSE LeastFactorFrom(x, d + 1)
-LeastFactor(x) == LeastFactorFrom(x, 2)                                   \* x >= 2
+LeastFactor(x) == IF \E d \in 2..DivBound(x) : d * d <= x /\ x % d = 0                          \* x >= 2
+                  THEN CHOOSE d \in 2..DivBound(x) : d * d <= x /\ x % d = 0 /\ \A c \in 2..(d - 1) : x % c # 0
+                  ELSE x
 RECURSIVE PowMod(_, _, _)
 PowMod(b, e, m) == IF e = 0 THEN 1 % m
                    ELSE LET h == PowMod(b, e \div 2, m)  hh == (h * h) % m IN IF e % 2 = 1 THEN (hh * (b % m)) % m ELSE hh
